@@ -255,7 +255,11 @@ static void register_props() {
         GenOpts o;
         o.maxw = 300;
         o.maxh = 8;
-        return gen_scene(o);
+        Scene sc = gen_scene(o);
+        // dithering is not part of this property's quantifier, and it is applied by the general floating-point path only
+        // (the special-case paths never dither, by design): not generated here
+        sc.dst.dither = 0;
+        return sc;
       },
       render_scene, judge_scene);
   add_worker_prop<FBCase>("fillblt", gen_fb, render_fb, judge_fb);
